@@ -126,6 +126,9 @@ def run(ctx):
     from .c12 import legacy_service_reachability
     legacy_service_reachability(ctx, program, "R09.8")
 
+    ctx.rule("R09.9", "new subsystem: the manager of a function whose variable died is stopped, or - when not started yet - never started", floor=4)
+    func_var_death_rule(ctx, program, "R09.9")
+
     ctx.rule("R09.2", "cleanup loops that release per element never return or break on a missing element", floor=3)
     loops = 0
     for u in program.functions():
@@ -268,6 +271,40 @@ def load_file_rule(ctx, program, rid):
               key="failed load stops context", node=f, rel="global_ctx.py")
     ctx.check(bad_reg is None, rid, uid, "a context is registered exactly when its source evaluated without exception",
               msg=f"load_file: {bad_reg}", key="register only after success", node=f, rel="global_ctx.py")
+
+
+def func_var_death_rule(ctx, program, rid):
+    """New subsystem: when the function variable of a decorated function dies (deleted, redefined), its manager is stopped if it runs and can never be started if it does not run yet."""
+    from ..absint import Const, ListV, ObjV, Sym
+    uid = "decorator.py::FunctionDecoratorManager.__init__.on_func_var_deleted"
+    suid = "global_ctx.py::GlobalContext.start"
+    for st in ("VALIDATED", "RUNNING", "STOPPED", "INVALID"):
+        dm = ObjV("dm", "FunctionDecoratorManager")
+        pol = FlowPolicy(program, may_raise_all=False, cancel=False, events=["self.stop", "dm.start"], globals_={"self": dm},
+                         inline={"DecoratorManager.update_status", "self.update_status", "FunctionDecoratorManager.update_status"})
+        heap = {"dm.status": Sym(("clsattr", "DecoratorManagerStatus", st)), "dm.eval_func": ObjV("ef", "EvalFunc"), "ef.global_ctx": ObjV("gctx", "GlobalContext"),
+                "gctx.dms": ListV((dm,), "set"), "gctx.dms_delay_start": ListV((dm,) if st == "VALIDATED" else (), "set"), "gctx.triggers_delay_start": ListV((), "set"),
+                "dm._decorators": ListV((ObjV("d0", "Decorator"),), "list"), "dm.name": Const("f")}
+        out = run_flow(program, uid, pol, heap=heap)
+        bad = None
+        ex = exits(out)
+        for k, c, d in ex:
+            stops = [e for e in c.trace if e[0] == "call" and e[1] == "self.stop"]
+            if k != "return":
+                bad = f"the finaliser leaves with {d}"
+            elif st == "RUNNING" and len(stops) != 1:
+                bad = "a running manager is not stopped"
+            elif st != "RUNNING" and stops:
+                bad = "stop() is called on a manager that is not running"
+            else:
+                # would the context still start it?
+                o2 = run_flow(program, suid, pol, args={"self": ObjV("gctx", "GlobalContext")}, heap=dict(c.heap))
+                for k2, c2, d2 in exits(o2):
+                    if any(e[0] == "call" and e[1] == "dm.start" for e in c2.trace):
+                        bad = ("the manager of the dead function is still queued for a delayed start: GlobalContext.start() starts it, so a function that was redefined while its file "
+                               "was loading runs in its old and its new definition")
+        ctx.check(bool(ex) and bad is None, rid, uid, f"function variable dies while its manager is {st}", msg=f"FunctionDecoratorManager, status {st}: {bad or 'no exit'}",
+                  key=f"func var death {st}", node=program.func(uid), rel="decorator.py")
 
 
 def load_file_identity_rule(ctx, program, rid):
